@@ -8,7 +8,7 @@ from bounded import cm, C01
 from bounded.common import pmap
 t0 = time.time()
 c01 = {'1.0': {}, '1.1': {}}; c15 = {'1.0': {}, '1.1': {}}; stats = {}
-for label, models, ws in (('two_level', list(cm.two_level_models()), 2), ('variants', list(cm.variant_models()), 3)):
+for label, models, ws in (('two_level', list(cm.two_level_models()), 2), ('two_level_rev', list(cm.two_level_models_rev()), 2), ('variants', list(cm.variant_models()), 3)):
     jobs = [(m, ver, ws) for m in models for ver in ('1.0', '1.1')]
     res = pmap(C01.evaluate, jobs)
     m_by_name = {cm.show(m): m for m in models}
